@@ -21,9 +21,11 @@ PROPS_MODULES = ["TraitsVerif.Props.C12"]
 TRANSLATORS = ["propstate"]
 RULE = ("seeded random histories of 1-15 steps over a pool of 3-6 HasTraits objects (value/aux Int, inst Instance, "
         "kids List(Instance), byname Dict(Str, Instance), tags Set(Int)); a class per shape: Property(observe=E) or "
-        "legacy depends_on, cached or not, 20 expressions (scalar, inst.value, kids.items.value, byname.items, "
+        "legacy depends_on, declared in one class or through a hierarchy (base plain getter / subclass "
+        "@cached_property over one or two levels, base cached / subclass plain, redeclared in the subclass with "
+        "another expression), cached or not, 20 expressions (scalar, inst.value, kids.items.value, byname.items, "
         "inst.kids.items.value, tags.items, two-link paths, lists of paths), full-view or lossy-sum getter, getter "
-        "returning Undefined, getter raising on its k-th call, class-level _p_changed listener, static readers on "
+        "returning None / 0 / '' / [] (kind F), getter returning Undefined, getter raising on its k-th call, class-level _p_changed listener, static readers on "
         "aux / value, dynamically attached on_trait_change + observe listeners and a late reader; steps: scalar set, "
         "Instance reassignment (incl. None, same object, self links), list/dict/set reassignment (incl. equal "
         "content) and in-place item mutation with duplicates (23 container methods), irrelevant changes, reads, "
@@ -62,6 +64,11 @@ OBS_LINK = {"i": "inst", "k": "kids.items", "b": "byname.items"}
 OBS_LEAF = {"v": "value", "a": "aux", "I": "inst", "K": "kids.items", "B": "byname.items", "T": "tags.items"}
 LEG_LINK = {"i": "inst", "k": "kids", "b": "byname"}
 LEG_LEAF = {"v": "value", "a": "aux", "I": "inst", "K": "kids", "B": "byname", "T": "tags"}
+# how the class hierarchy declares the property (the shape's expr / cached are the EFFECTIVE ones):
+#   -   one class            bu  base: Property + plain getter, subclass overrides _get_p with @cached_property
+#   b2  as bu, with an empty class in between      bc  base cached, subclass overrides with a plain getter
+#   rd  base declares the property over another expression, the subclass redeclares it
+INHERIT = ("-", "bu", "b2", "bc", "rd")
 FAIL_EXCS = ["ValueError", "TraitError", "RuntimeError", "KeyError", "AttributeError"]
 CACHE = "_traits_cache_p"
 
@@ -77,8 +84,11 @@ def parse_expr(e):
 class Shape:
     def __init__(self, text):
         w = text.split()
+        if len(w) == 10:
+            w.append("-")
         self.text = " ".join(w)
-        (self.expr, c, self.variant, sl, ra, rv, rp, self.getter, u, self.fail) = w
+        (self.expr, c, self.variant, sl, ra, rv, rp, self.getter, u, self.fail, self.inherit) = w
+        assert self.inherit in INHERIT and self.getter in "VSF"
         self.cached, self.static, self.ra, self.rv, self.rp, self.undef = [x == "1" for x in (c, sl, ra, rv, rp, u)]
         self.legacy = self.variant == "l"
         self.paths = parse_expr(self.expr)
@@ -88,7 +98,8 @@ class Shape:
             self.fail_k, self.fail_exc = int(k), e
 
     def class_key(self):
-        return (self.expr, self.cached, self.variant, self.static, self.ra, self.rv, self.getter, self.undef, self.fail)
+        return (self.expr, self.cached, self.variant, self.static, self.ra, self.rv, self.getter, self.undef, self.fail,
+                self.inherit)
 
 
 # ---------------------------------------------------------------------------
@@ -152,7 +163,17 @@ def h_getter(h, shape, root=0):
     if shape.getter == "V":
         return "&".join(h_view(h, root, ls, lf) for ls, lf in shape.paths)
     t = sum(h_sum(h, root, ls, lf) for ls, lf in shape.paths)
+    if shape.getter == "F":
+        return FALSY_SHOWN[t % 5] if t % 5 < 4 else str(t)
     return "U" if (shape.undef and t % 5 == 3) else str(t)
+
+
+FALSY_SHOWN = ["N", "0", "''", "[]"]
+
+
+def falsy_value(t):
+    """getter kind F: None, 0, '', [] are legitimate results (only Undefined means `nothing cached`)."""
+    return [None, 0, "", []][t % 5] if t % 5 < 4 else str(t)
 
 
 def h_matched_at(h, tgt, links, leaf, o):
@@ -632,11 +653,15 @@ def root_class(shape):
     fail_k = shape.fail_k
     fail_exc = shape.fail_exc
 
+    falsy = shape.getter == "F"
+
     def plain(self):
         """the getter's function of the object's current state (no counter, no cache)"""
         if view:
             return "&".join(r_view(self, ls, lf) for ls, lf in paths)
         t = sum(r_sum(self, ls, lf) for ls, lf in paths)
+        if falsy:
+            return falsy_value(t)
         return Undefined if (undef and t % 5 == 3) else str(t)
 
     def getter(self):
@@ -658,7 +683,43 @@ def root_class(shape):
             lg["nested"].append(("err", S.exc_name(e), who, now))
             raise
 
-    body = {"p": prop, "_get_p": cached_property(getter) if shape.cached else getter}
+    def declare(expr_text):
+        if shape.legacy:
+            return Property(depends_on=",".join(
+                ".".join([LEG_LINK[x] for x in p.split(".")[:-1]] + [LEG_LEAF[p.split(".")[-1]]])
+                for p in expr_text.split("+")))
+        o = [".".join([OBS_LINK[x] for x in p.split(".")[:-1]] + [OBS_LEAF[p.split(".")[-1]]])
+             for p in expr_text.split("+")]
+        return Property(observe=o[0] if len(o) == 1 else o)
+
+    def base_getter(self):          # must never run on an instance of the final class
+        return "BASE"
+    base_getter.__name__ = "_get_p"
+    mine = cached_property(getter) if shape.cached else getter
+    meta = type(Node)
+    uniq = len(_CLASSES)
+    inh = shape.inherit
+    if inh == "-":
+        parent, body = Node, {"p": prop, "_get_p": mine}
+    elif inh in ("bu", "b2"):
+        assert shape.cached
+        parent = _register(meta("C12Base_%d" % uniq, (Node,), {"p": declare(shape.expr), "_get_p": base_getter}),
+                           "C12Base_%d" % uniq)
+        if inh == "b2":
+            parent = _register(meta("C12Mid_%d" % uniq, (parent,), {}), "C12Mid_%d" % uniq)
+        body = {"_get_p": mine}
+    elif inh == "bc":
+        assert not shape.cached
+        parent = _register(meta("C12Base_%d" % uniq, (Node,), {"p": declare(shape.expr),
+                                                                "_get_p": cached_property(base_getter)}),
+                           "C12Base_%d" % uniq)
+        body = {"_get_p": mine}
+    else:   # rd: the base class observes something else
+        other = "T" if shape.expr != "T" else "v"
+        parent = _register(meta("C12Base_%d" % uniq, (Node,), {"p": declare(other),
+                                                                "_get_p": cached_property(base_getter)}),
+                           "C12Base_%d" % uniq)
+        body = {"p": declare(shape.expr), "_get_p": mine}
     if shape.static:
         def _p_changed(self, old, new):
             _log(self)["static"].append((old, new))
@@ -671,8 +732,8 @@ def root_class(shape):
         def _value_changed(self):
             nested_read(self, "rv")
         body["_value_changed"] = _value_changed
-    name = "C12Root_%d" % len(_CLASSES)
-    cls = type(Node)(name, (Node,), body)
+    name = "C12Root_%d" % uniq
+    cls = meta(name, (parent,), body)
     cls._c12_nested_read = nested_read
     _CLASSES[key] = _register(cls, name)
     return cls
@@ -700,6 +761,8 @@ def show_val(v):
         return "U"
     if v is None:
         return "N"
+    if isinstance(v, str) and v == "":
+        return "''"
     return str(v)
 
 
@@ -803,6 +866,7 @@ def run_impl(case):
         tags.add("impl-only")
     if shape.fail_k is not None:
         tags.add("getter-fails")
+    tags.add("inherit:" + shape.inherit)
     for f in ("static", "ra", "rv", "rp"):
         if getattr(shape, f):
             tags.add("shape:" + f)
@@ -1034,14 +1098,18 @@ def random_shape(rng, legacy=None, exprs=None):
     if legacy is None:
         legacy = rng.random() < 0.12
     cached = rng.random() < 0.82
-    getter = "V" if rng.random() < 0.7 else "S"
+    r = rng.random()
+    getter = "V" if r < 0.6 else "S" if r < 0.8 else "F"
     undef = getter == "S" and rng.random() < 0.25
     fail = "-"
     if rng.random() < 0.1:
         fail = "%d:%s" % (rng.randint(0, 4), rng.choice(FAIL_EXCS))
-    return "%s %d %s %d %d %d %d %s %d %s" % (
+    inherit = "-"
+    if rng.random() < 0.3:
+        inherit = rng.choice(["bu", "b2", "rd"] if cached else ["bc", "rd"])
+    return "%s %d %s %d %d %d %d %s %d %s %s" % (
         expr, cached, "l" if legacy else "o", rng.random() < 0.3, rng.random() < 0.2, rng.random() < 0.2,
-        rng.random() < 0.2, getter, undef, fail)
+        rng.random() < 0.2, getter, undef, fail, inherit)
 
 
 def slots_of(paths):
@@ -1318,7 +1386,7 @@ SMALL_ALPHABETS = {
     "T": [("st", 0, [1]), ("st", 0, [1, 2]), ("st", 0, []), ("mt", 0, "add:1"), ("mt", 0, "add:2"),
           ("mt", 0, "discard:1"), ("mt", 0, "ixor:[1,2]"), ("mt", 0, "clear"), ("mt", 1, "add:1"), ("rd",), ("at",)],
 }
-SMALL_SHAPES = ["%s 1 o 1 0 0 0 V 0 -", "%s 1 o 0 0 1 1 V 0 -", "%s 0 o 0 0 0 0 S 0 -"]
+SMALL_SHAPES = ["%s 1 o 1 0 0 0 V 0 - -", "%s 1 o 0 0 1 1 F 0 - bu", "%s 0 o 0 0 0 0 S 0 - rd"]
 
 
 def exhaustive_small(maxlen):
@@ -1353,6 +1421,17 @@ def corpus():
         "k.v 1 l 0 0 0 0 V 0 -|3|mk 0 append:1 [1] 1;mk 0 append:1 [1,1] 1;rd;mk 0 del:0 [1] 1;rd;sv 1 v 5;rd",
         # uncached with listeners
         "b.v 0 o 0 0 0 1 S 0 -|3|at;mb 0 set:1:2 {1:2} 1;sv 2 v 4;rd;dt;sv 2 v 5;rd",
+        # the getter legitimately computes None / 0 / '' / []: cached like any other value
+        "v 1 o 0 0 0 0 F 0 - -|2|rd;rd;rd;sv 0 v 1;rd;rd;sv 0 v 2;rd;rd;sv 0 v 3;rd;rd;cp p;rd;rd;cp c;rd;rd",
+        "k.v 1 o 1 0 0 0 F 0 - -|3|sk 0 [1,2];rd;rd;sv 1 v 3;rd;rd;mk 0 append:1 [1,2,1] 1;rd;rd",
+        # inherited property: base uncached / subclass @cached_property (also two levels, unpickled, cloned)
+        "k.v+i.v 1 o 0 0 0 0 V 0 - bu|4|sk 0 [1,2];si 0 3;rd;sv 1 v 5;rd;mk 0 append:1 [1,2,1] 1;rd;sv 3 v 2;rd;cp p;"
+        "rd;sv 1 v 6;rd;cp c;rd;sv 2 v 7;rd",
+        "i.v 1 o 0 0 0 0 V 0 - b2|3|at;si 0 1;rd;sv 1 v 5;rd;rd",
+        # base cached / subclass plain getter; property redeclared with another expression
+        "i.v 0 o 0 0 0 0 V 0 - bc|3|at;si 0 1;rd;sv 1 v 5;rd",
+        "i.v 1 o 0 0 0 0 V 0 - rd|3|si 0 1;rd;sv 1 v 5;rd;mt 0 add:1 [1] 1;rd",
+        "v 1 l 0 0 0 0 V 0 - bu|2|rd;sv 0 v 5;rd;sv 0 v 6;rd",
         # Undefined-returning getter
         "v 1 o 0 0 0 0 S 1 -|2|sv 0 v 3;rd;rd;sv 0 v 4;rd;rd",
     ]
